@@ -409,6 +409,26 @@ def run(ctx):
                 r8.check("pgcat::query_router::QueryRouter::parse" in srcs and any(n_.startswith("pgcat::client::Client::") for n_ in srcs), "inferred-from-the-stored-statement",
                          "the inferred AST is parsed from what Client keeps for the bound name (%s)" % sorted(n_.split("::")[-1] for n_ in srcs if n_.startswith("pgcat::client::Client::")),
                          "the AST inferred at Bind time does not come from the statement stored for the bound name (%s)" % sorted(srcs), c.where())
+                # the look-up of the stored statement gives up only for reasons that mean `there is nothing to infer from`: caching off, a name pgcat does not
+                # know, a statement parsed in this very batch (looked at already). Any other refusal leaves a prepared statement un-inferred (round 6:
+                # the unnamed statement, parsed in one batch and bound in a later one)
+                for hn in sorted(n_ for n_ in srcs if n_.startswith("pgcat::client::Client::")):
+                    hb = F.body(hn)
+                    if hb is None or "Option<" not in hb.locals[0]["ty"]:
+                        continue
+                    nones = [blk for blk, i, st in hb.assigns() if st["lhs"]["l"] == 0 and not st["lhs"]["p"] and st["rv"]["k"] == "agg" and st["rv"].get("variant") == "None"]
+                    nones += [k.block for k in hb.calls("re:FromResidual<.*>>::from_residual$") if k.dest["l"] == 0]
+                    odd = []
+                    for nb in nones:
+                        for sb, t in hb.direct_control_deps(nb):
+                            os_ = origins(hb, hb.blocks[sb]["term"]["op"], taint=True)
+                            calls_ = {strip_generics(o.call.name) for o in os_ if o.kind == "call"}
+                            flds_ = {p_[1:] for o in os_ if o.kind in ("place", "param") for p_ in o.proj if p_.startswith(".") and not p_[1:].isdigit()}
+                            ok_src = ("prepared_statements_enabled" in flds_ and not calls_) or any(re.search(r"HashMap::get$|Iterator::any$|Bind::get_name$|Try>::branch$", n2) for n2 in calls_) and not any(re.search(r"is_empty$|PartialEq.*::eq$|::len$|starts_with$", n2) for n2 in calls_)
+                            if not ok_src:
+                                odd.append("%s (%s)" % (hb.blocks[sb]["term"].get("span", "bb%d" % sb), sorted(x.split("::")[-1] for x in calls_) or sorted(flds_)))
+                    r8.check(not odd, "stored-statement-lookup-refuses-only-unknown-names:" + hn.split("::")[-1], "%s answers None only when caching is off, the name is unknown, or the statement was parsed in this batch" % hn.split("::")[-1],
+                             "%s gives up for another reason (%s): a statement that was prepared in an earlier batch - e.g. the unnamed one - is bound without being inferred and runs where the previous statement went" % (hn.split("::")[-1], "; ".join(odd[:3])))
                 if c.name != INFER:
                     argf = set()
                     for a in c.args[2:]:
@@ -418,6 +438,36 @@ def run(ctx):
                             if o.kind == "agg" and o.extra.get("agg") == "closure":
                                 argf.add("closure")
                     r8.check("extended_protocol_data_buffer" in argf or "closure" in argf, "bind-batch-known-from-buffer", "`an earlier statement of this batch exists` is derived from the buffered batch", "the batch-stickiness flag at Bind time is not derived from the buffered batch (%s)" % sorted(argf), c.where())
+    # both arms that infer for a batch ask the same question about the batch: since a Bind of a prepared statement is inferred too (D47), `an earlier statement
+    # of this batch was inferred` means an earlier Parse *or* Bind - a predicate that looks for Parse only lets `Bind w(rite); Execute; Parse r(ead) ..` move to a replica
+    if h:
+        claim9 = h.calls("pgcat::server::Server::claim")
+        kinds = {}
+        for c in h.calls(*infer_like):
+            if c.name == INFER or not claim9 or h.dominates(claim9[0].block, c.block) or len(c.args) < 3:
+                continue
+            for o in origins(h, c.args[2], taint=True):
+                if o.kind == "agg" and o.extra.get("agg") == "closure":
+                    cb = F.body(strip_generics(o.extra["def"]))
+                    if cb is None:
+                        continue
+                    acc = set()
+                    for sw in switches(cb):
+                        d_ = sw.discr()
+                        if d_ and d_[0].endswith("messages::ExtendedProtocolData"):
+                            for v_, t_ in d_[2].items():
+                                if t_ == d_[3]:
+                                    continue
+                                reach_ = cb.reach([t_])
+                                if any(st["lhs"]["l"] == 0 and st["rv"]["k"] == "use" and const_int(st["rv"]["op"]) == 1 for b_ in reach_ for st in cb.blocks[b_]["stmts"] if st["k"] == "assign") and \
+                                   not any(st["lhs"]["l"] == 0 and st["rv"]["k"] == "use" and const_int(st["rv"]["op"]) == 0 for b_ in reach_ for st in cb.blocks[b_]["stmts"] if st["k"] == "assign"):
+                                    acc.add(v_)
+                    kinds[c.where()] = acc
+        if kinds:
+            want = set().union(*kinds.values())
+            for k9, (w_, acc) in enumerate(sorted(kinds.items(), key=lambda kv: int(re.search(r"bb(\d+)", kv[0]).group(1)) if re.search(r"bb(\d+)", kv[0]) else 0), 1):
+                r8.check(acc == want and {"Parse"} <= acc, "batch-predicates-agree#%d" % k9, "the batch-stickiness predicate counts %s" % sorted(acc),
+                         "the batch-stickiness predicates of the idle loop disagree (%s here, %s elsewhere): an inferred statement kind that one arm ignores can be overruled by a later statement of the same batch" % (sorted(acc), sorted(want)), w_)
     # ---------------- R5 role filter
     r5 = ctx.rule("C05-R5", "ConnectionPool::get only considers servers whose role matches the requested role (None = any); the candidate list is afterwards only shuffled, narrowed, sorted or popped", floor=3)
     g = ctx.body(GETC, r5)
